@@ -642,7 +642,10 @@ pub fn op_alphabet() -> Vec<(&'static str, Op)> {
         ("TextNewline", Op::TextNewline),
         ("TextDraw", Op::TextDraw { text: s("Hi (there)\\") }),
         ("TextDraw:binary", Op::TextDraw { text: PdfString::new([0u8, 13, 10, 0xff][..].into()) }),
+        // as many closing as opening parentheses, but not nested: what follows the first `)` must not become operands
+        ("TextDraw:parentheses-out-of-order", Op::TextDraw { text: s("a) 1 0 0 rg (b") }),
         ("TextDrawAdjusted", Op::TextDrawAdjusted { array: vec![TextDrawAdjusted::Text(s("A")), TextDrawAdjusted::Spacing(-50.0), TextDrawAdjusted::Text(s("B")), TextDrawAdjusted::Spacing(0.5)] }),
+        ("TextDrawAdjusted:parentheses", Op::TextDrawAdjusted { array: vec![TextDrawAdjusted::Text(s(")(")), TextDrawAdjusted::Spacing(-120.0), TextDrawAdjusted::Text(s("((")), TextDrawAdjusted::Text(s("))"))] }),
         ("XObject", Op::XObject { name: "Im1".into() }),
         ("BeginMarkedContent", Op::BeginMarkedContent { tag: "Span".into(), properties: None }),
         ("BeginMarkedContent:props", Op::BeginMarkedContent { tag: "P".into(), properties: Some(Primitive::Name("MC0".into())) }),
